@@ -64,7 +64,7 @@ let do_X den f =
         let alg_max = List.fold_left (fun m (_, y) -> qmax m y) (qmk (-2147483647) 1) (List.nth lnd k) in
         agree (Printf.sprintf "max[%d]" k) spec_max (Some alg_max)) (range 0 (List.length lnd)) in
     let s5 = join ";" (fun lev -> join " " (fun (_, y) -> qs y) lev) lnd in
-    finish (String.concat " # " [s0; s1; s2; s3; s4; s5])
+    finish (String.concat " # " [s0; s1; s2; s3; s4; s5; "0 0"; "0 0"])
 
 (* expression programs: algorithm model (option) and pointwise specification *)
 type 'a stk = 'a list
